@@ -83,7 +83,15 @@ func main() {
 		if f.AncestorField() != "" && kind != "perm" && r.Chance(0.4) {
 			extra = append(extra, f.AncestorField())
 		}
+		if f.Name != "xml" && f.Name != "json" && r.Chance(0.45) {
+			// FINAL_OUTPUT.xpath as per-record target filter; dropped noise records are interspersed
+			env.Filter = pipe.Filters[r.Pick(len(pipe.Filters))]
+			sum.Hist("target-filter:" + env.Filter)
+		}
 		must := []string{"fuses", "cast"}
+		if r.Chance(0.3) {
+			must = append(must, "flag-arg")
+		}
 		if f.Name == "xml" && r.Chance(0.6) {
 			must = append(must, "xmlns")
 		}
@@ -96,7 +104,7 @@ func main() {
 		ext := pipe.GenExt(r.Pick)
 		fkinds := f.FailKindsFor()
 		run := func(recs []pipe.Rec) ([]byte, pipe.Transcript) {
-			in := f.Render(env, recs)
+			in := f.Render(env, f.WithNoise(r, env, recs))
 			vh.Current(o, map[string]interface{}{"kind": kind, "format": f.Name, "schema": schema, "ext": ext, "input_hex": fmt.Sprintf("%x", in)})
 			pipe.Watch(f.Name + " " + kind)
 			t := comp.RunReal(in, ext)
